@@ -444,10 +444,16 @@ class VM:
             a = self.stack.pop()
             b_num = to_number(b)
             a_num = to_number(a)
-            if b_num == 0:
+            if b_num == 0 or math.isnan(a_num) or math.isnan(b_num) or math.isinf(a_num):
                 self.stack.append(float("nan"))
+            elif math.isinf(b_num):
+                self.stack.append(a_num)
+            elif isinstance(a_num, int) and isinstance(b_num, int):
+                # Truncated remainder: the result takes the sign of the dividend
+                result = abs(a_num) % abs(b_num)
+                self.stack.append(-result if a_num < 0 else result)
             else:
-                self.stack.append(a_num % b_num)
+                self.stack.append(math.fmod(a_num, b_num))
 
         elif op == OpCode.POW:
             b = self.stack.pop()
